@@ -17,6 +17,11 @@ Inductive case :=
 | CDoc (S : tsdoc) (D : opdoc) (ops : option (res (list wop)))
 | CDef (S : tsdoc) (D : opdoc) (idx : nat) (tree : option (res stree)) (t : option tstype)
        (safe alias_free plain mfree : bool)   (* the harness's evaluation of the four guards *)
+| CTie (S : tsdoc) (D : opdoc) (idx : nat) (tree : option (res stree)) (t : option tstype)
+       (safe alias_free plain mfree : bool)
+   (* like [CDef], for a definition whose estimated evaluation cost (2^#boolean variables x size of the
+      emitted type) is over the harness's budget: the correspondence is still checked, the property
+      predicates are not evaluated (counted in the evidence) *)
 | CInvalid (S : tsdoc) (D : opdoc) (idx : nat) (tree : option (res stree))
    (* a definition of a spec-INVALID document that check nevertheless accepts (Field Selection Merging is
       not implemented by the checker: same response key for a leaf and an object field, or for fields of
@@ -102,6 +107,22 @@ Definition guard_alias_free (S : tsdoc) (D : opdoc) (d : execdef) : bool :=
   | None => true
   end.
 
+Definition agree_def (Sc : tsdoc) (D : opdoc) (idx : nat) (tree : option (res stree)) (t : option tstype)
+           (safe al pl mf : bool) : bool :=
+  match nth_error (od_defs D) idx with
+  | None => false
+  | Some d =>
+      match tree with
+      | Some r => res_eqb stree_eqb (def_tree Sc D d) r
+      | None => false
+      end
+      && option_eqb tstype_eqb (res_opt (emit_type default_options Sc D d)) t
+      && Bool.eqb (guard_safe Sc D d) safe
+      && Bool.eqb (guard_alias_free Sc D d) al
+      && Bool.eqb (guard_plain Sc d) pl
+      && Bool.eqb (guard_merge_free Sc D d) mf
+  end.
+
 Definition agree (c : case) : bool :=
   match c with
   | CDoc Sc D ops =>
@@ -109,20 +130,8 @@ Definition agree (c : case) : bool :=
       | Some r => res_eqb wops_eqb (print_document default_options Sc D) r
       | None => false
       end
-  | CDef Sc D idx tree t safe al pl mf =>
-      match nth_error (od_defs D) idx with
-      | None => false
-      | Some d =>
-          match tree with
-          | Some r => res_eqb stree_eqb (def_tree Sc D d) r
-          | None => false
-          end
-          && option_eqb tstype_eqb (res_opt (emit_type default_options Sc D d)) t
-          && Bool.eqb (guard_safe Sc D d) safe
-          && Bool.eqb (guard_alias_free Sc D d) al
-          && Bool.eqb (guard_plain Sc d) pl
-          && Bool.eqb (guard_merge_free Sc D d) mf
-      end
+  | CDef Sc D idx tree t safe al pl mf => agree_def Sc D idx tree t safe al pl mf
+  | CTie Sc D idx tree t safe al pl mf => agree_def Sc D idx tree t safe al pl mf
   | CRelaxed _ _ _ _ => true
   | CInvalid Sc D idx tree =>
       match nth_error (od_defs D) idx, tree with
@@ -227,6 +236,7 @@ Definition holds_with (p : tsdoc -> opdoc -> execdef -> tstype -> bool) (c : cas
   | CDoc _ _ _ => true
   | CRelaxed _ _ _ _ => true
   | CInvalid _ _ _ _ => true
+  | CTie _ _ _ _ _ _ _ _ _ => true
   | CDef Sc D idx _ t _ _ _ _ =>
       match nth_error (od_defs D) idx, t with
       | Some d, Some t => p Sc D d t
